@@ -61,6 +61,7 @@ func (w *world) faultSweep(op M) M {
 	run := func(wr io.Writer) (err error, panicked string) {
 		defer func() {
 			if r := recover(); r != nil {
+				mustBeLibrary(r, "faultsweep")
 				panicked = fmt.Sprint(r)
 			}
 		}()
